@@ -20,6 +20,12 @@ TEXT = {
          "REQ's retained-count bound is only retained <= n (no published closed form); KLL's bound is the published max serialized size."),
  "C08": ("DESIGN 6/C08", "The simulator owns the library's coin through hook H1: per-operation draw trees are enumerated completely (kll, classic quantiles) and whole histories are enumerated over all coin sequences (req), and unbiasedness is an exact integer identity per explored state; histories are found by seeded search. Also decides that the number of flips does not depend on their outcomes.",
          "Classic quantiles' down-sampling merge (draws a stride offset from the 64-bit engine) is skipped by the bit oracle and counted; the published-error clause (long streams) is input statistics and not decided here."),
+ "C12": ("DESIGN 6/C12", "Seeded simulation of producers and an exactly-once aggregator over frequent-items sketches: merge trees drawn by the scheduler, checkpoint/restore points, copies and refused operations, with an exact reference model per live sketch checked after every step. Sampled histories.", "Result-set guarantees are checked at thresholds >= get_maximum_error() (below it an untracked item cannot be listed by construction); epsilon bound only while 0.75*2^lg_max <= 1024."),
+ "C14": ("DESIGN 6/C14", "Seeded simulation of producers and an exactly-once aggregator over count-min sketches with a shadow single-stream sketch for linearity: merge trees drawn by the scheduler, checkpoint/restore points, copies and refused operations, with an exact reference model per live sketch checked after every step. Sampled histories.", "Integer-valued weights so sums are exact; the confidence clause (input statistics) is not decided."),
+ "C16": ("DESIGN 6/C16", "Seeded simulation of producers and an exactly-once aggregator over var_opt sketches and unions, with the library's random draws owned by the simulator (seeded, plus single extreme draws): merge trees drawn by the scheduler, checkpoint/restore points, copies and refused operations, with an exact reference model per live sketch checked after every step. Sampled histories.", "Union results are checked for n, total weight, membership and size <= max_k only (the heavy-item clause is stated for a sketch and its own stream); unbiasedness is not decided here."),
+ "C17": ("DESIGN 6/C17", "Seeded simulation of producers and an exactly-once aggregator over t-digests with reader steps interleaved (queries and serialization compress lazily): merge trees drawn by the scheduler, checkpoint/restore points, copies and refused operations, with an exact reference model per live sketch checked after every step. Sampled histories.", "Finite inputs only; centroid bound 2*(2k+30) read from the serialized count field; long-stream accuracy not decided."),
+ "C18": ("DESIGN 6/C18", "Seeded simulation of producers and an exactly-once aggregator over ebpps sketches merged in both directions with the draws owned by the simulator: merge trees drawn by the scheduler, checkpoint/restore points, copies and refused operations, with an exact reference model per live sketch checked after every step. Sampled histories.", "Inclusion probabilities (statistical) are not decided; one recorded finding (size vs c after merge) is listed in known_findings.json."),
+ "C20": ("DESIGN 6/C20", "Seeded simulation of producers and an exactly-once aggregator over density sketches with the coin owned by the simulator: merge trees drawn by the scheduler, checkpoint/restore points, copies and refused operations, with an exact reference model per live sketch checked after every step. Sampled histories.", "Retained bound is k*(observed levels+1), never stricter than the statement; kernel sums compared at 1e-12 (double) / 1e-4 (float)."),
  "C09": ("DESIGN 6/C09", "Seeded simulation of a log-structured sketch store: histories of updates/merges with checkpoints through both serialization APIs (headers, chunked streams, trailing records, torn and lost writes), crashes with recovery from the log, and continue-after-restore against the never-serialized object; every round trip is checked for byte equality of both writers, advertised sizes, exact stream consumption, observational equality and re-serialization. Sampled histories, so exploration.",
          "Assumes the adapters' obs() covers the public API of each family; unordered hash-table sections are compared after an independent canonicalisation written from the layout comments."),
  "C11": ("DESIGN 6/C11", "For each sampled valid image the fault space is enumerated completely (every strict prefix on the bytes and stream paths, every preamble byte x 8 replacement values on both paths) under ASan with exact-size buffers, a tracking allocator (leak after rejection, allocation budget) and a CPU watchdog; images are sampled by seed. Exhaustive per image, sampled over images.",
